@@ -193,6 +193,22 @@ pub fn run(ctx: &mut Ctx, replay: Option<&str>) {
                 ctx.count("control.names_containing_reserved_spellings");
             }
         }
+        // lists of records that all have the same member names, one of them with a reserved name added (first, in the middle, last
+        // of its members; early or late in the list)
+        for (k, n) in [3usize, 15, 16, 17, 40, 120].into_iter().enumerate() {
+            for (j, at) in [(1usize, 2usize), (n / 2, 0), (n - 1, 2), (n - 1, 1), (0, 2)] {
+                for reserved in ["...", "_sd"] {
+                    let mut recs: Vec<Value> = (0..n).map(|i| json!({"id": i, "title": format!("t{}", i)})).collect();
+                    let mut items: Vec<(String, Value)> = vec![("id".into(), json!(j)), ("title".into(), json!("planted"))];
+                    items.insert(at.min(items.len()), (reserved.to_string(), json!("x")));
+                    recs[j] = Value::Object(items.into_iter().collect());
+                    let c = json!({"iss": "https://issuer.example", "exp": now + 100000, "records": recs, "other": {"records": [[{"id": 1}]]}});
+                    let st = match (k + j + at) % 4 { 0 => Strategy::All, 1 => Strategy::Top, 2 => Strategy::None, _ => Strategy::Custom(vec!["$.records[0].id".into()]) };
+                    cases.push((IssueArgs { claims: c, strategy: st, holder: None, decoy: false, fmt: if j % 2 == 0 { Fmt::Compact } else { Fmt::Json }, key: crate::keys::KeyId::IssuerEc, alg: None, queue: None }, true));
+                    ctx.count("planted.in_a_list_of_like_records");
+                }
+            }
+        }
         // a reserved name inside the value of a member that the library itself treats specially (outside the quantifier's claim
         // sets, inside the statement: "any object anywhere")
         for (k, holder_name) in ["_sd_alg", "cnf", "iss_", "aud", "nbf", "sub", "iat", "exp"].iter().enumerate() {
